@@ -15,6 +15,7 @@ RULES = {
     "O-case": "both spellings of every keyword edge give the same token type and flag update",
     "O-uniform": "words the fragment treats as one class (same kind of name / number / spelling) are lexed and handled alike",
     "O-final": "the final output (Output.format evaluated abstractly on the accepted statement) is what the property documents",
+    "O-counter": "the lexer's nesting counters stay within the nesting the fragment writes (they follow the brackets of the statement)",
     "O-keys": "final output: primary_key is the declared key, key columns NOT NULL, unique flags, FOREIGN KEY clauses on their columns",
     "O-shape": "final output: documented table / column skeleton, booleans, JSON-encodable values",
     "O-mode": "final output per mode: no mode raises, common fields equal the default mode, dialect keys only where documented",
@@ -63,7 +64,7 @@ def _record(ck, sm, only_rules=None):
         by_rule.setdefault(rule, []).append(key)
         ck.ob(rule, key, False, detail, f"fragment {sm.name}", witness=witness)
     counts = {"O-accept": sm.n_trans, "O-segment": sm.n_reductions, "O-value": sm.checked, "O-raise": sm.n_actions_evaluated,
-              "O-case": sm.n_trans, "O-uniform": sm.n_trans + sm.n_actions_evaluated, "O-final": sm.checked,
+              "O-case": sm.n_trans, "O-uniform": sm.n_trans + sm.n_actions_evaluated, "O-final": sm.checked, "O-counter": sm.n_trans,
               "O-keys": sm.n_final, "O-shape": sm.n_final, "O-mode": sm.n_final}
     for rule, text in RULES.items():
         if only_rules is not None and rule not in only_rules:
